@@ -57,6 +57,26 @@ class Sandbox:
     def destroy(self):
         fsutil.rmtree(self.top)
 
+    def clone(self, name):
+        """byte-for-byte copy (cp -a: hard links, mtimes kept) under a new top; the config is re-pointed at the copy"""
+        import subprocess
+        new = object.__new__(Sandbox)
+        new.top = fsutil.workdir(name)
+        os.rmdir(new.top)
+        subprocess.run(["cp", "-a", self.top, new.top], check=True)
+        new.base = os.path.join(new.top, "area", "spool")
+        new.etc = os.path.join(new.top, "area", "etc")
+        new.config_path = os.path.join(new.etc, "mirror.list")
+        new.decoys = [os.path.join(new.top, os.path.relpath(d, self.top)) for d in self.decoys]
+        if os.path.exists(new.config_path):
+            st = os.stat(new.config_path)
+            with open(new.config_path) as fp:
+                text = fp.read()
+            with open(new.config_path, "w") as fp:
+                fp.write(text.replace(self.top, new.top))
+            os.utime(new.config_path, (st.st_atime, st.st_mtime))
+        return new
+
 
 def patch_seams():
     am.DownloaderFactory.for_settings = staticmethod(lambda *, settings: ScriptedDownloader(settings=settings))
